@@ -321,7 +321,10 @@ func (x *c18) runLinux() {
 	// layout of the raw file: 0 = one table with COMMIT, 1 = without COMMIT
 	// line, 2 = a mangle table with its own [APPEND] section in front
 	// (with COMMIT), 3 = the same without COMMIT between the tables
-	for layout := 0; layout < 4; layout++ {
+	// layouts 4, 5: as 0, 1, but Netspoc's deny entries jump to the chain
+	// droplog (LOG, then DROP) as Netspoc's own Linux code does
+	for layout := 0; layout < 6; layout++ {
+		droplog := layout >= 4
 		for _, s4 := range shapes4 {
 			for _, pre := range rawPre {
 				for _, app := range rawApp {
@@ -334,16 +337,23 @@ func (x *c18) runLinux() {
 					}
 					var l4, lpre, lapp []string
 					var b4, br strings.Builder
-					if layout >= 2 {
+					if layout == 2 || layout == 3 {
 						br.WriteString("*mangle\n:PREROUTING ACCEPT\n-A PREROUTING -j MARK --set-mark 1 -s 10.7.7.7\n[APPEND]\n-A PREROUTING -j MARK --set-mark 2 -s 10.7.7.8\n")
 						if layout == 2 {
 							br.WriteString("COMMIT\n")
 						}
 					}
 					b4.WriteString("*filter\n:INPUT DROP\n:FORWARD DROP\n")
+					if droplog {
+						b4.WriteString(":droplog -\n-A droplog -j LOG --log-level debug\n-A droplog -j DROP\n")
+					}
 					for _, k := range s4 {
-						b4.WriteString("-A FORWARD " + lin4[k] + "\n")
-						l4 = append(l4, linuxmodel.CanonRule(lin4[k]))
+						r := lin4[k]
+						if droplog {
+							r = strings.Replace(r, "-j DROP", "-j droplog", 1)
+						}
+						b4.WriteString("-A FORWARD " + r + "\n")
+						l4 = append(l4, linuxmodel.CanonRule(r))
 					}
 					b4.WriteString("COMMIT\n")
 					br.WriteString("*filter\n:FORWARD DROP\n")
@@ -358,7 +368,7 @@ func (x *c18) runLinux() {
 							lapp = append(lapp, linuxmodel.CanonRule(linRaw[k]))
 						}
 					}
-					if layout != 1 {
+					if layout != 1 && layout != 5 {
 						br.WriteString("COMMIT\n")
 					}
 					b := core.Files{Main: b4.String(), Raw: br.String()}
@@ -401,7 +411,8 @@ func (x *c18) caseLinux(idx int64, b core.Files, p mergeParts) {
 			}
 		}
 	}
-	isPermit := func(e string) bool { return !strings.Contains(e, "-j DROP") }
+	// a jump to the chain droplog (LOG, DROP) is a drop entry
+	isPermit := func(e string) bool { return !strings.Contains(e, "-j DROP") && !strings.Contains(e, "-j droplog") }
 	if msg := checkMerge(got, p, isPermit, false); msg != "" {
 		x.violation("Linux", "parts-linux", idx, "", b, out.Script(), "merge-order", "merge:"+mergeSig(msg),
 			msg+"\nresulting chain:\n  "+strings.Join(got, "\n  "))
@@ -671,7 +682,7 @@ func c18Worker(ctx *core.Ctx) *core.Result {
 func init() {
 	registerSharded("C18", c18Worker, func(tier string) core.Meta {
 		return core.Meta{ID: "C18", Level: "exploration",
-			Rule:        "all combinations of part shapes: Netspoc IPv4 part {empty, only deny, permit+deny, only permits, 2 permits+deny, 2 denies} x IPv6 part (same shapes; ASA, PAN-OS, NSX) x raw prepend entries {0,1,2} x raw [APPEND] entries {0,1,2} x raw ACL name {equal to Netspoc's, own}; Linux additionally x raw file layout {one table with / without COMMIT line, a second table with its own [APPEND] section in front, with / without COMMIT between}; for ASA, IOS, Linux, PAN-OS, NSX; several containers: PAN-OS two vsys x each part holding 0..3 rules for either (144 combinations), NSX three gateway policies x each part holding any subset (511 combinations); the effective target is observed as the state an empty device model reaches after executing the script of the real planner; oracle = independent list predicates: every entry exactly once, order inside each part preserved, raw entries in front of all Netspoc entries, [APPEND] entries behind the last permitting Netspoc entry and in front of the trailing deny/drop entries (PAN-OS puts them at the very end: known finding F-C18-panos-append-at-end; NSX: only completeness); plus a list of legal raw constructs that must arrive completely (group referenced by two raw lines, raw / IPv6 service-groups, raw route equal to a Netspoc route) and a list of unmergeable raw entries (unknown command, unbound / doubly bound object, name clash, forbidden names) that must give an error or a warning; non-trivial = combinations the tool accepted and whose result was checked",
+			Rule:        "all combinations of part shapes: Netspoc IPv4 part {empty, only deny, permit+deny, only permits, 2 permits+deny, 2 denies} x IPv6 part (same shapes; ASA, PAN-OS, NSX) x raw prepend entries {0,1,2} x raw [APPEND] entries {0,1,2} x raw ACL name {equal to Netspoc's, own}; Linux additionally x raw file layout {one table with / without COMMIT line, a second table with its own [APPEND] section in front, with / without COMMIT between, Netspoc's deny entries as jumps to a chain 'droplog' (LOG, DROP)}; for ASA, IOS, Linux, PAN-OS, NSX; several containers: PAN-OS two vsys x each part holding 0..3 rules for either (144 combinations), NSX three gateway policies x each part holding any subset (511 combinations); the effective target is observed as the state an empty device model reaches after executing the script of the real planner; oracle = independent list predicates: every entry exactly once, order inside each part preserved, raw entries in front of all Netspoc entries, [APPEND] entries behind the last permitting Netspoc entry and in front of the trailing deny/drop entries (PAN-OS puts them at the very end: known finding F-C18-panos-append-at-end; NSX: only completeness); plus a list of legal raw constructs that must arrive completely (group referenced by two raw lines, raw / IPv6 service-groups, raw route equal to a Netspoc route) and a list of unmergeable raw entries (unknown command, unbound / doubly bound object, name clash, forbidden names) that must give an error or a warning; non-trivial = combinations the tool accepted and whose result was checked",
 			Assumptions: []string{"relative order of IPv4 and IPv6 entries is not prescribed by the statement and not checked"},
 			Bounds:      map[string]any{"entries per part": "<=3 Netspoc, <=2 raw, <=2 APPEND"},
 		}
